@@ -6,6 +6,7 @@ Requests (one per line, S-expressions, see `harness/src/bin/c16.rs` for the prin
   run <fuel> (funs F…) MAIN     → `<res on> ;; <trace on> ;; fails=<n> ;; <res off> ;; <trace off>`
   ty V                          → `ty=<xhex> callable=<0|1> indexable=<0|1> iterable=<0|1>`
   chk H V                       → `<0|1>`          (H = `(h x<hex> <0|1>)`)
+  cyc H ((<-|!|x<hex>> <-|i>)…) n → `ty=<xhex> chk=<0|1>`   (graph of maps, possibly cyclic; node n)
 
   V ::= null | b0 | b1 | i<int> | fl<int> | s<xhex> | (r a b) | (l V…) | (t V…) | (m (n V)…)
       | (o <-|!|x<hex>> <call><iter><next> ((n V)…) <-|V>) | (fn i) | (gf i) | (nat i) | (gi i) | (it V…)
@@ -207,6 +208,24 @@ def handle (line : String) : String :=
     | some v =>
       s!"ty={hexOfBytes (bytesOfCps (typeName v))} callable={b01 (callable v)} indexable={b01 (indexable v)} iterable={b01 (iterable v)}"
     | none => "bad-request"
+  | [.atom "cyc", h, .list nodes, start] =>
+    -- graph of maps: nodes `(<-|!|x<hex>> <-|index>)`; reply: type name of `start` and the check
+    let parseNode : Sexp → Option GNode := fun nd =>
+      match nd with
+      | .list [.atom ty, b] => do
+        let ty ← (match ty with
+          | "-" => some MetaTy.absent
+          | "!" => some MetaTy.nonString
+          | t => (nameOfAtom t).map MetaTy.str)
+        let b ← (match b with
+          | .atom "-" => some none
+          | x => x.nat?.map some)
+        pure { ty := ty, base := b }
+      | _ => none
+    match parseHint h, nodes.mapM parseNode, start.nat? with
+    | some h, some g, some n =>
+      s!"ty={hexOfBytes (bytesOfCps (typeNameG g n))} chk={b01 (checkG g h.name h.opt n)}"
+    | _, _, _ => "bad-request"
   | [.atom "chk", h, v] =>
     match parseHint h, parseV v with
     | some h, some v => b01 (check h.name h.opt v)
